@@ -95,8 +95,15 @@ func (x *Exec) toNative(v Value, rt reflect.Type) ([]argOpt, bool) {
 		if !ok {
 			return nil, false
 		}
+		// equal texts reached along different paths are one alternative
 		var out []argOpt
+		idx := map[string]int{}
 		for _, a := range s.alts {
+			if k, ok := idx[a.s]; ok {
+				out[k].g = mkOr(out[k].g, a.g)
+				continue
+			}
+			idx[a.s] = len(out)
 			out = append(out, argOpt{a.g, reflect.ValueOf(a.s).Convert(rt)})
 		}
 		return out, true
@@ -239,8 +246,8 @@ func (x *Exec) nativeCall(fr *Frame, fn *ssa.Function, nf interface{}, args []Va
 			}
 		}
 		combos = nc
-		if len(combos) > 256 {
-			notEncodable("native call %s: too many alternatives", fn)
+		if len(combos) > 2048 {
+			notEncodable("native call %s: too many alternatives (argument %d has %d) at %s", fn, k, len(opts), x.framePos(fr, p))
 		}
 	}
 	res := fn.Signature.Results()
